@@ -4,6 +4,7 @@ import (
 	"fmt"
 	"strings"
 	"testing"
+	"time"
 
 	"pgregory.net/rapid"
 
@@ -272,9 +273,88 @@ func c13Gen(t *rapid.T) c13Case {
 	return c
 }
 
+// ---- backpressure lane: queued control replies are bounded -----------------------
+//
+// The peer floods frames that each elicit one reply (PING, SETTINGS, requests
+// over the concurrency limit) and does not read. A server whose queue of
+// replies is bounded stops consuming the flood; one that keeps consuming holds
+// memory proportional to the number of frames sent.
+
+type c13BPCase struct {
+	Kind string `json:"kind"` // ping | settings | refused
+	N    int    `json:"n"`
+}
+
+func c13BPRun(c c13BPCase) Outcome {
+	h := peer.Start(peer.Config{MaxConcurrentStreams: 1, MaxRequestBodySize: 1000, DefaultResp: peer.Resp{Status: 200, Gate: true}})
+	defer h.Close()
+	h.SendSettings(nil)
+	id := uint32(1)
+	if c.Kind == "refused" {
+		sendReq(h, id, simpleReq("slot"))
+		id += 2
+	}
+	if ok, d := h.Quiesce(); !ok {
+		return Outcome{Inconcl: "no quiescence after the handshake: " + d}
+	}
+	h.C.HoldReads(true)
+	h.S.SetWriteLimit(1024)
+	consumed0, written0 := h.S.Consumed(), h.S.Written()
+	var flood []byte
+	frameLen, replyLen := 0, 0
+	for i := 0; i < c.N; i++ {
+		var f []byte
+		switch c.Kind {
+		case "ping":
+			f = rawframe.Append(nil, rawframe.Ping, 0, 0, []byte{0, 0, 0, 0, byte(i >> 24), byte(i >> 16), byte(i >> 8), byte(i)})
+			replyLen = 17
+		case "settings":
+			f = rawframe.Append(nil, rawframe.Settings, 0, 0, rawframe.SettingsPayload([][2]uint32{{3, uint32(100 + i%7)}}))
+			replyLen = 9
+		case "refused":
+			// an indexed-only block: the same octets for every stream
+			f = rawframe.Append(nil, rawframe.Headers, rawframe.FlagEndHeaders|rawframe.FlagEndStream, id, []byte{0x82, 0x87, 0x84, 0x41, 0x01, 'a'})
+			id += 2
+			replyLen = 13
+		}
+		frameLen = len(f)
+		flood = append(flood, f...)
+	}
+	_ = h.Write(flood)
+	// wait until the server has stopped consuming (it has taken everything, or it is blocked)
+	last, same := int64(-1), 0
+	for i := 0; i < 20000 && same < 40; i++ {
+		time.Sleep(500 * time.Microsecond)
+		if n := h.S.Consumed(); n == last {
+			same++
+		} else {
+			last, same = n, 0
+		}
+	}
+	taken := (h.S.Consumed() - consumed0) / int64(frameLen)
+	left := (h.S.Written() - written0) / int64(replyLen)
+	// what may legitimately sit inside the server: both bufio buffers (4 KiB
+	// each, <= 456 of the smallest frames), the two frame queues (128 each)
+	// and a frame in each loop's hands
+	const bound = 1400
+	cls := []string{"bp:" + c.Kind}
+	if taken-left > bound {
+		return fail("reply-queue-unbounded:"+c.Kind, "the peer sent %d %s frames without reading a single reply: the server consumed %d of them while only %d replies left it, so %d replies (or frames waiting to be answered) are held in memory; its buffers and queues account for at most %d", c.N, c.Kind, taken, left, taken-left, bound)
+	}
+	if ga := peer.GoAways(h.EventsCopy()); len(ga) > 0 {
+		cls = append(cls, "bp-goaway")
+	}
+	return Outcome{NonTrivial: int64(c.N) > 2*bound, Classes: cls}
+}
+
+func c13BPGen(t *rapid.T) c13BPCase {
+	return c13BPCase{Kind: rapid.SampledFrom([]string{"ping", "settings", "refused"}).Draw(t, "kind"), N: rapid.SampledFrom([]int{500, 3000, 6000, 12000}).Draw(t, "n")}
+}
+
 func TestC13(t *testing.T) {
 	s := newSuite(t, "C13",
-		"adversarial schedules of 1..8 operations, each repeated up to 300 times, from {complete request + immediate RST_STREAM with a parked handler, streams left half-open with partial bodies, PRIORITY on ever-new ids, CONTINUATION floods of complete fields and of one never-completed string, body over / not matching its declared size, header list over the limit, PING and SETTINGS floods, handler releases, normal requests} against small limits (MaxConcurrentStreams 1..8, MaxRequestBodySize 1000..65536, MaxHeaderListSize 600..8192), optionally played 4 times on one connection. Oracle: handlers running at once <= MaxConcurrentStreams; no handler gets a body over the limit or runs for a request whose header list / body broke a limit; hook gauges (stream table, closed-id memory, buffered header and body octets; high-water marks) stay within limit-derived bounds; playing the schedule 4 times leaves the end-of-run gauges where one pass leaves them. Non-trivial = >=100 frames and a gauge sampled while a handler was parked; distinct by case hash.")
+		"adversarial schedules of 1..8 operations, each repeated up to 300 times, from {complete request + immediate RST_STREAM with a parked handler, streams left half-open with partial bodies, PRIORITY on ever-new ids, CONTINUATION floods of complete fields and of one never-completed string, body over / not matching its declared size, header list over the limit, PING and SETTINGS floods, handler releases, normal requests} against small limits (MaxConcurrentStreams 1..8, MaxRequestBodySize 1000..65536, MaxHeaderListSize 600..8192), optionally played 4 times on one connection. Oracle: handlers running at once <= MaxConcurrentStreams; no handler gets a body over the limit or runs for a request whose header list / body broke a limit; hook gauges (stream table, closed-id memory, buffered header and body octets; high-water marks) stay within limit-derived bounds; playing the schedule 4 times leaves the end-of-run gauges where one pass leaves them. Backpressure lane: 500..12000 PING / SETTINGS / over-the-limit request frames written at once by a peer that reads nothing (server write buffer 1 KiB); oracle: frames consumed by the server minus replies that left it never exceeds what its two 4 KiB buffers and two 128-frame queues can hold (1400), i.e. the server stops reading rather than queueing replies without bound. Non-trivial = >=100 frames and a gauge sampled while a handler was parked, or (backpressure) a flood of more than twice the bound; distinct by case hash.")
 	defer s.finish()
 	runLane(s, Lane[c13Case]{Name: "limits", Journal: true, Quick: 600, Thor: 30000, Gen: c13Gen, Run: c13Run})
+	runLane(s, Lane[c13BPCase]{Name: "backpressure", Journal: true, Quick: 16, Thor: 400, Gen: c13BPGen, Run: c13BPRun})
 }
